@@ -27,7 +27,47 @@ type caseT struct {
 
 func run(c *Ctx) {
 	var cases []caseT
-	add := func(k caseT) { cases = append(cases, k) }
+	total := 0
+	// cases are driven and evaluated in batches (the op lines of syntax trees are long)
+	flush := func() {
+		if len(cases) == 0 {
+			return
+		}
+		lines := make([]string, len(cases))
+		for i, k := range cases {
+			lines[i] = k.line
+		}
+		outs := c.Drive(lines)
+		for i, k := range cases {
+			switch k.kind {
+			case "bits":
+				evalBits(c, k, outs[i])
+			case "epb":
+				evalEpb(c, k, outs[i])
+			case "h264dec", "h264enc":
+				evalH264(c, k, outs[i])
+			case "ascdec", "ascenc":
+				evalAsc(c, k, outs[i])
+			case "hevcspsdec", "hevcspsenc":
+				evalHevcSps(c, k, outs[i])
+			case "hevcvpsdec", "hevcvpsenc":
+				evalHevcVps(c, k, outs[i])
+			default:
+				c.Find(Finding{Kind: "corr", Class: "unknown-op", Case: k.line, Impl: "?", Model: outs[i]})
+			}
+			if (total+i)%4001 == 0 {
+				c.Sample(fmt.Sprintf("%.160s → %.200s", k.line, outs[i]))
+			}
+		}
+		total += len(cases)
+		cases = cases[:0]
+	}
+	add := func(k caseT) {
+		cases = append(cases, k)
+		if len(cases) >= 6000 {
+			flush()
+		}
+	}
 
 	// corpus first
 	for _, l := range c.CorpusLines() {
@@ -36,42 +76,16 @@ func run(c *Ctx) {
 			add(caseT{line: l, kind: f[1], wf: true, class: "corpus"})
 		}
 	}
+	c.Res.Rule = "case = one driver op line: a reader script over a byte buffer; a byte string for emulation-prevention removal; a byte string fed to a decoder " +
+		"(samples, every truncation, mutations, random); or a generated syntax tree (every optional branch drawn on and off, Exp-Golomb values of every width, signed values) " +
+		"encoded by the specification's encoder and then also put into an SDP for ParseMetadata/NewStream. Distinct by the op line; non-trivial when the decoder got past its header checks or the script has ≥ 2 ops"
 	genBits(c, add)
 	genEpb(c, add)
 	genH264(c, add)
 	genAsc(c, add)
 	genHevc(c, add)
 	genHevcTrees(c, add)
-
-	lines := make([]string, len(cases))
-	for i, k := range cases {
-		lines[i] = k.line
-	}
-	outs := c.Drive(lines)
-	c.Res.Rule = "case = one driver op line: a reader script over a byte buffer; a byte string for emulation-prevention removal; a byte string fed to a decoder " +
-		"(samples, mutations, truncations, random); or a generated syntax tree (every optional branch drawn on and off, Exp-Golomb values of every width, signed values) " +
-		"encoded by the specification's encoder. Distinct by the op line; non-trivial when the decoder got past its header checks or the script has ≥ 2 ops"
-	for i, k := range cases {
-		switch k.kind {
-		case "bits":
-			evalBits(c, k, outs[i])
-		case "epb":
-			evalEpb(c, k, outs[i])
-		case "h264dec", "h264enc":
-			evalH264(c, k, outs[i])
-		case "ascdec", "ascenc":
-			evalAsc(c, k, outs[i])
-		case "hevcspsdec", "hevcspsenc":
-			evalHevcSps(c, k, outs[i])
-		case "hevcvpsdec", "hevcvpsenc":
-			evalHevcVps(c, k, outs[i])
-		default:
-			c.Find(Finding{Kind: "corr", Class: "unknown-op", Case: k.line, Impl: "?", Model: outs[i]})
-		}
-		if i%(len(cases)/10+1) == 0 {
-			c.Sample(fmt.Sprintf("%.160s → %.200s", k.line, outs[i]))
-		}
-	}
+	flush()
 }
 
 func trunc(s string, n int) string {
